@@ -195,8 +195,18 @@ def run(rep, tier, root=None):
                             bad = True
                             rep.violation("P2.attribute-store", "%s: %s" % (f.fq, norm_text(n)[:80]),
                                           "stores state on a %s object" % b.kind, f.where(n))
+        # the process-wide random state is hidden state shared by everything: a function that draws from numpy.random.<fn> /
+        # random.<fn> returns different results for equal arguments and changes what later callers of the global RNG see
+        from .c06 import rng_sites
+        _ctor, _glob, _clock = rng_sites(ix, f)
+        for n, d in _glob:
+            bad = True
+            rep.violation("P2.global-rng", "%s: %s" % (f.fq, norm_text(n)[:70]),
+                          "%s draws from the process-wide random state: two calls with equal arguments return different results, the "
+                          "result depends on what else has drawn from or reseeded the global generator, and the call advances it for "
+                          "everybody else (no seed or generator can be passed in)" % d, f.where(n))
         if not bad:
-            rep.ok("P2.no-hidden-state", f.fq, "no module/class/function state written, no memoisation", False)
+            rep.ok("P2.no-hidden-state", f.fq, "no module/class/function state written, no memoisation, no global random state", False)
     # P3 batch clause for trailing-axes functions
     from . import c20_batch
     nb = c20_batch.check(rep, ix)
